@@ -368,6 +368,8 @@ def conclude(mod, prop, tier, seed, repo, plan, agg, t0, write_evidence=True):
         print(l)
     if verdict == "inconclusive":
         print("INCONCLUSIVE property=%s reason=%s" % (prop, "; ".join(inconclusive)[:1500]))
+    elif inconclusive:
+        print("note: starved monitors (would be inconclusive without the violations): %s" % "; ".join(inconclusive)[:1500])
     if verdict == "broken":
         print("BROKEN property=%s reason=%s" % (prop, "; ".join(agg["broken"])[:800]))
     print("RESULT property=%s verdict=%s" % (prop, verdict))
